@@ -4,7 +4,7 @@ cd "$(dirname "$0")/.."
 tier="$1"; shift
 ids="$*"
 [ -z "$ids" ] && ids="C01 C02 C03 C04 C05 C06 C07 C08 C09 C10 C11 C12 C13 C14 C15 C16 C17 C18 C19 C20"
-[ "$ids" = "all" ] && ids="C01 C02 C03 C04 C05 C06 C07 C08 C09 C10 C11 C12 C13 C14 C15 C16 C17 C18 C19 C20 X01 X02 X03 X04 X05 X06 X07"
+[ "$ids" = "all" ] && ids="C01 C02 C03 C04 C05 C06 C07 C08 C09 C10 C11 C12 C13 C14 C15 C16 C17 C18 C19 C20 X01 X02 X03 X04 X05 X06 X07 X08"
 for id in $ids; do
   [ -f harness/$(echo $id | tr A-Z a-z).py ] || continue
   t0=$(date +%s)
